@@ -197,9 +197,7 @@ theorem Rep.toG {G : GCtx} (ok : G.OK) {pi : PInfo} (hpi : pi ∈ G.procs) {sp d
       show X.readName G.xc σ n = _
       unfold X.readName
       rw [hl, hgv]
-    obtain ⟨id', a, hid, hloc, _, hm⟩ := h.aptr n _ hr
-    simp only [ArrRef.glob.injEq] at hid
-    subst hid
+    obtain ⟨a, hloc, _, hm⟩ := h.aptr n _ hr
     have : G.locOf pi sp n = some a := hloc
     rw [ok.gloc_ok pi hpi sp n hn] at this
     exact ⟨a, this, hm⟩
@@ -219,8 +217,8 @@ theorem po_pos (pi : PInfo) : 1 ≤ pi.po := by
 
 /-- After the prologue, the memory represents the callee's start state. -/
 theorem rep_callee {G : GCtx} (ok : G.OK) {pi : PInfo} (hpi : pi ∈ G.procs) (ws : List Val) (st : X.St)
-    (mem memP : Mem) (spc : Nat) (hg : GRep G st mem) (hokv : ∀ v ∈ ws, okV v = true)
-    (hargs : ∀ j (hj : j < ws.length), mem.read (spc + pi.po + j) = wordOf G.abase ws[j])
+    (mem memP : Mem) (spc : Nat) (hg : GRep G st mem)
+    (hargs : ∀ j (hj : j < ws.length), G.VRep ws[j] (mem.read (spc + pi.po + j)))
     (hlen : pi.p.formals.length = ws.length)
     (hS : G.S pi ≤ spc) (hP1 : memP.read 1 = BitVec.ofNat 32 (spc - G.S pi))
     (hrest : ∀ w, w ≠ 1 → w ≠ spc → memP.read w = mem.read w) (hlo : G.lo ≤ spc - G.S pi)
@@ -263,7 +261,8 @@ theorem rep_callee {G : GCtx} (ok : G.OK) {pi : PInfo} (hpi : pi ∈ G.procs) (w
           cases hvk : ws[k] with
           | arr r => rw [hvk] at hr; simp [bindB] at hr
           | int w0 =>
-            rw [hvk] at hr
+            have hv := hargs k hk
+            rw [hvk] at hr hv
             simp only [bindB, Except.ok.injEq, Val.int.injEq] at hr
             refine ⟨spc + pi.po + k, ?_, by omega, ?_⟩
             · show G.locOf pi (spc - G.S pi) n = _
@@ -271,8 +270,8 @@ theorem rep_callee {G : GCtx} (ok : G.OK) {pi : PInfo} (hpi : pi ∈ G.procs) (w
               congr 1
               omega
             · have hp := po_pos pi
-              rw [hrest _ (by omega) (by omega), hargs k hk, hvk]
-              exact hr
+              rw [hrest _ (by omega) (by omega)]
+              exact Eq.trans hv hr
         | none =>
           rw [hf] at hl'
           simp only [Option.none_or] at hl'
@@ -381,24 +380,21 @@ theorem rep_callee {G : GCtx} (ok : G.OK) {pi : PInfo} (hpi : pi ∈ G.procs) (w
           subst hb
           have hloc := ok.formal_loc pi hpi (spc - G.S pi) k f hfk
           rw [hfn] at hloc
-          have hok := hokv ws[k] (List.getElem_mem hk)
+          have hv := hargs k hk
           cases hvk : ws[k] with
           | int w0 => rw [hvk] at hr; simp [bindB] at hr
           | arr r0 =>
-            rw [hvk] at hr hok
+            rw [hvk] at hr hv
             simp only [bindB, Except.ok.injEq, Val.arr.injEq] at hr
             subst hr
-            cases r0 with
-            | lit l => simp [okV] at hok
-            | glob id =>
-              refine ⟨id, spc + pi.po + k, rfl, ?_, by omega, ?_⟩
-              · show G.locOf pi (spc - G.S pi) n = _
-                rw [hloc]
-                congr 1
-                omega
-              · have hp := po_pos pi
-                rw [hrest _ (by omega) (by omega), hargs k hk, hvk]
-                rfl
+            refine ⟨spc + pi.po + k, ?_, by omega, ?_⟩
+            · show G.locOf pi (spc - G.S pi) n = _
+              rw [hloc]
+              congr 1
+              omega
+            · have hp := po_pos pi
+              rw [hrest _ (by omega) (by omega)]
+              exact hv
         | none =>
           exfalso
           rw [hf] at hl'
@@ -429,7 +425,8 @@ theorem rep_callee {G : GCtx} (ok : G.OK) {pi : PInfo} (hpi : pi ∈ G.procs) (w
             have h2 := ok.gloc_ge n hn a ha
             have hlt := ok.gloc_lo n hn a ha
             have htop := ok.top
-            refine ⟨id, a, hr.symm, ?_, by unfold memWords at *; omega, ?_⟩
+            subst hr
+            refine ⟨a, ?_, by unfold memWords at *; omega, ?_⟩
             · show G.locOf pi (spc - G.S pi) n = _
               rw [ok.gloc_ok pi hpi _ n hn]; exact ha
             · rw [hrest _ (by omega) (by omega)]; exact hm
@@ -498,7 +495,7 @@ theorem GRep.frame {G : GCtx} (ok : G.OK) {σ σ' : X.St} {mem mem' : Mem} (h : 
     exact h.strs l bs ws j k hmem hp hd idx hidx
 
 theorem callee_correct {G : GCtx} (ok : G.OK) (fuel : Nat) (ih : StmtSpec G fuel) : CallSpec G (fuel + 1) := by
-  intro pi hpi ws st lnk b mem spc k kind n hg hm1 hokv hargs hstack htop hlo hk hlink
+  intro pi hpi ws st lnk b mem spc k kind n hg hm1 hargs hstack htop hlo hk hlink
   rw [callUser_succ]
   by_cases hd : st.depth ≥ X.maxDepth
   · rw [if_pos hd]; trivial
@@ -526,7 +523,7 @@ theorem callee_correct {G : GCtx} (ok : G.OK) (fuel : Nat) (ih : StmtSpec G fuel
   -- the prologue
   obtain ⟨a1, memP, stP, hP1, hPl, hPrest⟩ := exec_prologue G.env pi.kind pi.p.name (G.S pi) pi.iPro (ok.at_pro pi hpi)
     lnk b mem spc st.io hm1 (by unfold memWords at *; omega) (ok.code_lo _ hlo) (by omega) ok.code_1 hS
-  have rep := rep_callee ok hpi ws st mem memP spc hg hokv hargs hlen hS hP1 hPrest hlo' (by unfold memWords at *; omega) hspc
+  have rep := rep_callee ok hpi ws st mem memP spc hg hargs hlen hS hP1 hPrest hlo' (by unfold memWords at *; omega) hspc
   have wf := ok.wfs pi hpi (spc - G.S pi) (st.depth + 1) memP.read hlo' (by omega)
   have hbody := ih pi hpi (spc - G.S pi) (st.depth + 1) memP.read hlo' (by omega) (by omega) pi.p.body
     (calleeSt st pi ws) (ok.body_ok pi hpi) pi.gs1 pi.code pi.gs2 (G.iBody pi) a1 (BitVec.ofNat 32 spc) memP
